@@ -1,6 +1,6 @@
 (* C03 - find visit order: pre/post-order (-depth); -prune cuts exactly one subtree. *)
-Require Import Walk WalkPre WalkSpec WalkDefer.
-From Coq Require Import List Arith Bool.
+Require Import Walk WalkPre WalkSpec WalkDefer SortOrder SortOrderProofs.
+From Coq Require Import List Arith Bool Sorting.Permutation.
 Import ListNotations.
 
 (* default order: a directory is reported, then (unless pruned or at maxdepth) its children in
@@ -27,6 +27,31 @@ Print Assumptions C03_prune_exact.
 Theorem C03_prune_noop_under_depth : forall c P n, post c = true -> walk c P n = walk c noP n.
 Proof. exact walk_prune_noop_under_depth. Qed.
 Print Assumptions C03_prune_noop_under_depth.
+
+(* -sorted: "siblings are evaluated in byte-wise name order, so the complete visit sequence is a deterministic function of the
+   tree".  [sort_names] (Model/SortOrder.v) is the order -sorted puts the children of one directory in before the walk above
+   goes through them: the same children, each name byte-wise below or equal to every later one ... *)
+Theorem C03_sorted_order : forall (A : Type) (l : list (bname * A)),
+  Permutation l (sort_names l) /\ ordered (sort_names l).
+Proof. intros A l. split; [apply sort_perm|apply sort_ordered]. Qed.
+Print Assumptions C03_sorted_order.
+
+(* ... where byte-wise means: a proper prefix first, otherwise decided by the first byte that differs *)
+Theorem C03_byte_order : forall p x y s t, ble p (p ++ t) /\
+  (x < y -> ble (p ++ x :: s) (p ++ y :: t) /\ ~ ble (p ++ y :: t) (p ++ x :: s)).
+Proof. intros p x y s t. split; [apply ble_prefix|apply ble_first_diff]. Qed.
+Print Assumptions C03_byte_order.
+
+(* ... and the order in which the directory happened to list its (distinctly named) entries does not matter *)
+Theorem C03_sorted_deterministic : forall (A : Type) (l1 l2 : list (bname * A)),
+  NoDup (map fst l1) -> Permutation l1 l2 -> sort_names l1 = sort_names l2.
+Proof. intros A. exact sort_deterministic. Qed.
+Print Assumptions C03_sorted_deterministic.
+
+Example C03_sorted_witness :   (* "b", "a.b", "a", "B", "a-", "é" (c3 a9), "ab" *)
+  map fst (sort_names [([98], 1); ([97; 46; 98], 2); ([97], 3); ([66], 4); ([97; 45], 5); ([195; 169], 6); ([97; 98], 7)]) =
+  [[66]; [97]; [97; 45]; [97; 46; 98]; [97; 98]; [98]; [195; 169]].
+Proof. vm_compute. reflexivity. Qed.
 
 (* the pinned code violated this: it ran walkdir with contents_first, and skip_current_dir after a deferred directory
    popped the parent's list (kept as a regression witness: the iterator in that mode with fixed := false on
